@@ -128,6 +128,11 @@ SHARED_SUBQUERY_SCRIPTS = [
     "o3 = {Q}.from_(o1).from_(o0).select('a')\no4 = {Q}.from_(T('w')).join(o0).on(T('w').a == o0.a).select('a')",
     "o0 = {Q}.from_(T('u')).select('a')\no1 = {Q}.from_(T('t')).join(o0).on(T('t').a == o0.a).select('a')\n"
     "o2 = {Q}.from_(T('v')).select('b')\no3 = {Q}.from_(o2).from_(o0).select('a')\no4 = {Q}.from_(o2).join(o0).on(o2.b == o0.a).select('a')",
+    # a sub-query named by an earlier statement joined into a statement whose own counter has moved on and whose fresh source
+    # got the same invented name: the earlier name stays (both are called sq0 — the listed C10 finding), it is not rewritten
+    "o0 = {Q}.from_(T('u')).select('a')\no1 = {Q}.from_(o0).select('a')\no2 = {Q}.from_(T('v')).select('b')\n"
+    "o3 = {Q}.from_(o2).join(o0).on(o2.b == o0.a).select('a')\no4 = {Q}.from_(T('w')).select('c')\n"
+    "o5 = {Q}.from_(o4).from_(o0).select('a')\no6 = o5.join(o2).on(o2.b == o0.a)",
 ]
 
 
